@@ -1058,6 +1058,45 @@ func checkEvictedAddressesAreWiped(c *Ctx, rule string) {
 				if locksCached(ci) {
 					nLock++
 				}
+				// the wipe as a private helper that is handed the cached object and locks it (type switch inside)
+				if hc, ok := ci.(*ssa.Call); ok {
+					g := hc.Call.StaticCallee()
+					if g == nil || len(g.Blocks) == 0 || fnPkgPath(g) != fnPkgPath(fn) || len(callsNamed(g, "lock")) == 0 {
+						continue
+					}
+					for i, a := range hc.Call.Args {
+						fromCache := false
+						for _, o := range (&Slicer{P: p, KeepExtract: true}).Origins(a) {
+							if lk, ok := o.(*ssa.Lookup); ok {
+								if _, f, _, okf := fieldOf(stripConv(lk.X)); okf && f == "addrs" {
+									fromCache = true
+								}
+							}
+						}
+						if !fromCache || i >= len(g.Params) {
+							continue
+						}
+						// ... and the helper locks what it is handed
+						for _, lc := range callsNamed(g, "lock") {
+							if len(lc.Call.Args) == 0 {
+								continue
+							}
+							for _, o := range (&Slicer{P: p, KeepExtract: true}).Origins(lc.Call.Args[0]) {
+								if o == ssa.Value(g.Params[i]) {
+									nLock++
+								}
+								if ta, ok := o.(*ssa.TypeAssert); ok && stripConv(ta.X) == ssa.Value(g.Params[i]) {
+									nLock++
+								}
+								if ex, ok := o.(*ssa.Extract); ok {
+									if ta, ok := ex.Tuple.(*ssa.TypeAssert); ok && stripConv(ta.X) == ssa.Value(g.Params[i]) {
+										nLock++
+									}
+								}
+							}
+						}
+					}
+				}
 			}
 			c.Check(rule, "evicted-address-wiped-first:"+fnName(fn), call.Pos(), nLock > 0,
 				fnName(fn)+" removes an address object from the scoped manager's cache without locking it first: evicted while the manager is unlocked, the object keeps its clear-text private key (or script) and Lock() no longer reaches it")
